@@ -165,6 +165,11 @@ def make_data(rng, N, shape, n, nc, lo=-3, hi=3, dup=0.3, label_kind="scalar", m
                 Xf[i] = rng.choice([-1.0, 1.0], size=m)
         X = Xf.reshape((N,) + tuple(shape))
         Q = np.zeros((n,) + tuple(shape), np.float32)
+    if mode == "offset":
+        # a large common offset of cases and queries changes no distance between them (a crossed-distance routine that expands
+        # ||x||^2 - 2<x,z> + ||z||^2 in float32 does change): Minkowski / Chebyshev / Euclidean / Manhattan only
+        X = X + np.float32(4096.0)
+        Q = Q + np.float32(4096.0)
     if label_kind == "scalar":
         L = (10 + np.arange(N)).astype(np.int64)
     elif label_kind == "bigint":        # integers that float32 cannot represent (returned labels must be the originals)
@@ -590,6 +595,13 @@ def gen_cases(ctx):
                     container=["np", "ds_b1", "tf"][j % 3], simple=True)
         d.update(shape=[int(rng.integers(9, 17))], dmode="sparse-dense", dup=0.0,
                  dist={"name": ["chebyshev", "mink3", "npinf", "mink4", "inf", "euclidean"][j % 6]})
+        d["proj"] = {"kind": "none", "mappable": False, "m": d["shape"][0]}
+        cases.append(d)
+    # common offset of cases and queries (translation-invariant distances, no projection)
+    for j in range((40 if thorough else 6) * scale):
+        d = gen_one(rng, thorough, container=["np", "ds_b1", "tf", "torch"][j % 4], simple=True)
+        d.update(dmode="offset", shape=[int(rng.integers(2, 6))],
+                 dist={"name": ["euclidean", "manhattan", "chebyshev", "mink3", "mink2", "npinf"][j % 6]})
         d["proj"] = {"kind": "none", "mappable": False, "m": d["shape"][0]}
         cases.append(d)
     # labels that float32 cannot represent
